@@ -246,7 +246,7 @@ PROPS["C07"] = pbt(
     level_note="domain restricted to values with an unambiguous textual form (DESIGN 5.4); section order and key-less sections are not compared",
     quick={"cases": 800000},
     thorough={"cases": 8000000, "fuzz_runs": 800000, "fuzz_jobs": 8},
-    floors={"reopened_section_by_setters": 0.10, "groupless_after_section": 0.10, "overwritten_key": 0.15,
+    floors={"reopened_section_by_setters": 0.10, "groupless_after_section": 0.10, "overwritten_key": 0.12,
             "read_quoted": 0.08, "comments": 0.15, "d_space": 0.25, "d_eq": 0.25, "d_colon": 0.25, "c_hash": 0.40,
             "c_semicolon": 0.40},
 )
